@@ -221,3 +221,133 @@ func (w *World) mkStaking(bpy uint64, infl, ap *big.Int) *AdminMsg {
 			return err
 		}}
 }
+
+// ---- liquidity-protection sequences across the disabled state --------------------------------------------
+//
+// UpdateLiquidityProtectionParams toggling IsActive with the same / another maximum and asset and other
+// epoch lengths, ModifyLiquidityProtectionRates with the current threshold below / at / above the maximum
+// while the protection is on and while it is off; real blocks in between and after.
+
+func (w *World) mkUpdateLP(max *big.Int, asset string, epoch uint64, active bool) *AdminMsg {
+	m := &clptypes.MsgUpdateLiquidityProtectionParams{Signer: w.admin.String(), MaxRowanLiquidityThreshold: sdk.NewUintFromBigInt(max), MaxRowanLiquidityThresholdAsset: asset, EpochLength: epoch, IsActive: active}
+	return &AdminMsg{kind: "UpdateLiquidityProtectionParams", desc: fmt.Sprintf("adm %s %d %s", max, epoch, boolBit(active)), shape: "seq", vb: m.ValidateBasic,
+		run: func(ctx sdk.Context) error {
+			_, err := w.csrv.UpdateLiquidityProtectionParams(sdk.WrapSDKContext(ctx), m)
+			return err
+		}}
+}
+
+func (w *World) mkModifyLP(cur *big.Int) *AdminMsg {
+	lpp := w.app.ClpKeeper.GetLiquidityProtectionParams(w.ctx)
+	m := &clptypes.MsgModifyLiquidityProtectionRates{Signer: w.admin.String(), CurrentRowanLiquidityThreshold: sdk.NewUintFromBigInt(cur)}
+	return &AdminMsg{kind: "ModifyLiquidityProtectionRates", desc: fmt.Sprintf("adm %s %s", cur, u2s(lpp.MaxRowanLiquidityThreshold)), shape: "seq", vb: m.ValidateBasic,
+		run: func(ctx sdk.Context) error {
+			_, err := w.csrv.ModifyLiquidityProtectionRates(sdk.WrapSDKContext(ctx), m)
+			return err
+		}}
+}
+
+type lpStep struct {
+	update bool
+	max    *big.Int
+	asset  string
+	epoch  uint64
+	active bool
+	cur    *big.Int // for ModifyLiquidityProtectionRates
+}
+
+func (s lpStep) String() string {
+	if s.update {
+		return fmt.Sprintf("U(%s,%s,%d,%s)", s.max, s.asset, s.epoch, boolBit(s.active))
+	}
+	return fmt.Sprintf("M(%s)", s.cur)
+}
+
+// the demonstration of seeded change C10-8: switch off with maximum M, set current > M, switch on with the same M
+func directedLpPlan() []lpStep {
+	M := big.NewInt(1000000)
+	return []lpStep{{update: true, max: M, asset: "cusdc", epoch: 10, active: false}, {cur: big.NewInt(1000001)}, {update: true, max: M, asset: "cusdc", epoch: 10, active: true}}
+}
+
+func randomLpPlan(r *Rng) []lpStep {
+	maxes := []*big.Int{r.Amount(60), r.Amount(90)}
+	if r.Chance(1, 6) {
+		maxes[0] = big.NewInt(0)
+	}
+	assets := []string{"cusdc", "rowan", "ceth"}
+	epochs := []uint64{1, 2, 3, 10, 14400, 1 << 63}
+	var plan []lpStep
+	curMax, curAsset := maxes[0], assets[r.Intn(2)]
+	active := r.Bool()
+	plan = append(plan, lpStep{update: true, max: curMax, asset: curAsset, epoch: epochs[r.Intn(len(epochs))], active: active})
+	for i := 0; i < 3+r.Intn(5); i++ {
+		if r.Chance(1, 2) {
+			// toggle (mostly) with the same maximum and asset, sometimes another maximum / asset / epoch length only
+			if r.Chance(1, 4) {
+				curMax = maxes[r.Intn(2)]
+			}
+			if r.Chance(1, 5) {
+				curAsset = assets[r.Intn(len(assets))]
+			}
+			if r.Chance(3, 4) {
+				active = !active
+			}
+			plan = append(plan, lpStep{update: true, max: curMax, asset: curAsset, epoch: epochs[r.Intn(len(epochs))], active: active})
+		} else {
+			var cur *big.Int
+			switch r.Intn(6) {
+			case 0:
+				cur = big.NewInt(0)
+			case 1:
+				cur = new(big.Int).Set(curMax)
+			case 2:
+				cur = add1(curMax)
+			case 3:
+				cur = new(big.Int).Add(new(big.Int).Lsh(curMax, 1), big.NewInt(7))
+			case 4:
+				cur = r.Near(curMax)
+			default:
+				cur = new(big.Int).Rsh(curMax, 1)
+			}
+			plan = append(plan, lpStep{cur: cur})
+		}
+	}
+	if !active || r.Chance(1, 2) { // end switched on, so that the BeginBlocker reads what the sequence left
+		plan = append(plan, lpStep{update: true, max: curMax, asset: curAsset, epoch: epochs[r.Intn(3)], active: true})
+	}
+	return plan
+}
+
+func runLpSequence(r *Rng, out *Out, plan []lpStep, shape string) {
+	out.Emit("reset", "ok", "reset", false)
+	w := policyWorld(r)
+	desc := ""
+	for _, s := range plan {
+		desc += s.String()
+	}
+	t := &tracked{m: &AdminMsg{kind: "LpSequence", shape: shape, desc: desc}, accepted: true}
+	h := int64(2)
+	for _, s := range plan {
+		s := s
+		w.SetHeight(h)
+		w.runBlock(r, out, t, 1, func() {
+			if s.update {
+				w.submitAdm(out, w.mkUpdateLP(s.max, s.asset, s.epoch, s.active))
+			} else {
+				w.submitAdm(out, w.mkModifyLP(s.cur))
+			}
+		})
+		h++
+		for i := 0; i < r.Intn(3); i++ { // blocks in between
+			w.SetHeight(h)
+			w.runBlock(r, out, t, 1, nil)
+			h++
+		}
+	}
+	for i := 0; i < 4; i++ {
+		w.SetHeight(h)
+		w.runBlock(r, out, t, 2, nil)
+		h++
+	}
+	out.Hist["lpseq.completed"]++
+}
